@@ -182,8 +182,9 @@ class UDPProxyProtocol(asyncio.DatagramProtocol):
                 remote_addr, data = socks_parsed
                 # register the destination as a known far addr
                 # this allows us to have source and dest addr on the same IP
-                # since we expect a send from client->far to happen first
-                self.far_to_near_map[remote_addr] = source_addr
+                # since we expect a send from client->far to happen first.
+                # Never re-point an established route, the datagram hasn't been validated yet.
+                self.far_to_near_map.setdefault(remote_addr, source_addr)
                 src_packet = UDPPacket(
                     src_addr=source_addr,
                     dst_addr=remote_addr,
